@@ -123,6 +123,12 @@ def history(M, rec, rng, g, desc):
     as_int = rng.random() < 0.15
     if as_int:
         vals0 = drive.integerise(vals0)
+    elif rng.random() < 0.3:
+        # metering rates as an optimiser returns them for an active bound r <= 1: above one by its tolerance
+        for o_ in desc["origins"]:
+            if o_["kind"] == "ramp" and "r" in vals0.get(o_["id"], {}):
+                vals0[o_["id"]]["r"] = 1.0 + rng.choice((1e-8, 1e-6, 1e-10))
+                rec.count("histories_with_a_metering_rate_above_one_by_a_solver_tolerance")
     opts0 = {o: True for o in ("positive_init_speed", "positive_next_speed", "positive_next_density", "positive_init_queue") if rng.random() < 0.2}
     first_engine = rng.choice(("numpy", "numpy", "SX", "MX"))
     via = drive.pick_via(rng, 0.3)
